@@ -506,18 +506,25 @@ where
         // sets. The first PDUs take longer to construct than the later ones.
         // Flamegraph currently hints at the fn split on MpReachNlriBuilder.
 
+        let pdu_len = self.calculate_pdu_length(session_config);
         let maybe_pdu = if let Some(ref mut reach_builder) =
             self.announcements
         {
             let mut split_at = reach_builder.announcements.len();
 
             let other_attrs_len = self.attributes.bytes_len();
-            let limit = Self::MAX_PDU 
+            let limit = (Self::MAX_PDU
                     // marker/len/type, wdraw len, total pa len
                     - (16 + 2 + 1 + 2 + 2)
                     // MP_REACH_NLRI flags/type/len/afi/safi/rsrved, next_hop
-                    - 8 - reach_builder.get_nexthop().compose_len()
-                    - other_attrs_len;
+                    - 8)
+                .checked_sub(reach_builder.get_nexthop().compose_len())
+                .and_then(|l| l.checked_sub(other_attrs_len));
+            // The other attributes by themselves do not leave room for
+            // any announcements.
+            let Some(limit) = limit else {
+                return (Err(ComposeError::PduTooLarge(pdu_len)), None)
+            };
 
                 if !reach_builder.announcements.is_empty() {
                     let mut compose_len = 0;
